@@ -24,7 +24,8 @@ VALID_LEAF = {
     'text10': ['hello'], 'pattern': ['abc'], 'bool': [True, False],
     'datetime': ['2020-01-02T03:04:05', '2020-01-02T03:04:05Z', '2020-01-02T03:04:05.25+02:00', '0001-01-01T00:00:00Z'],
     'date': ['2020-01-02', '2020-01-02Z'], 'time': ['03:04:05', '23:59:59.999999'],
-    'duration': ['P1D', 'PT0.5S', '-P1DT2H'], 'bytes': ['YWJj', ''], 'hex': ['6162'], 'decimal': ['1.5', '-0'],
+    'duration': ['P1D', 'PT0.5S', '-P1DT2H'], 'bytes': ['YWJj', ''], 'hex': ['6162'], 'urlsafe': ['YWJj', 'Pz8_-w==', ''], 'b64': ['YWJj', 'Pz8/+w=='],
+    'file': ['YWJj'], 'fileurl': ['YWJj'], 'filehex': ['6162'], 'decimal': ['1.5', '-0'],
     'double': [2.5, 1e300], 'uuid': ['12345678-1234-5678-1234-567812345678'], 'enum': ['red', 'green'],
     'anydict': [{'a': 1}], 'anyxml': ['<a/>'],
 }
@@ -55,10 +56,63 @@ KIND_JUNK = {
     'decimal': ['NaN', 'sNaN', 'Infinity', '-Infinity', 'abc', '', '1e999999999', '1' * 2000, '1.5.5', '%s', '0x1'],
     'double': ['NaN', 'inf', '-inf', '1e999', 'abc', '', '0x1p3', '1_0', '%'],
     'bool': ['maybe', '', 'TRUE', '2', 'yes'], 'bytes': ['====', 'YQ', 'Y', 'YQ=', '\u00e9', '%%%', ''],
-    'hex': ['6', 'zz', '61 62', ''], 'uuid': ['12345678-1234-5678-1234-56781234567', 'abc', '', '{' * 40, 'urn:uuid:zz'],
+    'hex': ['6', 'zz', '61 62', '', '6é', 'YWJj'], 'urlsafe': ['====', 'YQ', 'Y', 'YQ=', 'é', '%%%', 'Pz8/+w==', 'A' * 101],
+    'b64': ['====', 'YQ', 'Y', 'é', 'Pz8_-w=='], 'file': ['====', 'YQ', 'Y', 'é', '', 'A' * 101],
+    'fileurl': ['====', 'YQ', 'Y', 'é', '', 'A' * 101], 'filehex': ['6', 'zz', ''], 'uuid': ['12345678-1234-5678-1234-56781234567', 'abc', '', '{' * 40, 'urn:uuid:zz'],
     'enum': ['blue', '', '__class__', '__init__', 'RED', 'red '], 'text': ['', '\x00' if False else 'x' * 5000],
     'text10': ['x' * 11, ''], 'pattern': ['ABC', '', 'abc1'], 'anydict': ['abc', '', '{'], 'anyxml': ['<a', '', 'abc', '<a/><b/>'],
 }
+# length as a dimension: malformed / hostile literals of 1, 99, 100, 101, 1000 and 70000 characters.  Readers
+# abbreviate, truncate or pre-check long values (max_str_len, value[:100] + "(...)", fault strings) on paths
+# that short literals never reach.
+LENGTHS = (1, 99, 100, 101, 1000, 70000)
+_UNITS = {
+    # unit strings repeated (and cut) to the length; every one is malformed for some reader at some length
+    'all': ['A', '=', '9', '%s', ' ', 'é', '-', '{'],
+    'binary': ['A', '=', 'A=', '_-', '+/', 'zz', '0', '6', 'Yé', '%', '\n', 'AAAA='],
+    'number': ['9', '-9', '9.', '1e', '0x', '9_', '٣'],
+    'date': ['2020-01-02T03:04:05.', '2020-', '0', '9', 'Z', '+00:00', 'P1D', 'PT', '1S', ':'],
+    'text': ['a', 'A', 'é', '😀', ']]>', '&amp;', 'a b'],
+}
+_UNIT_CLASSES = {'bytes': 'binary', 'hex': 'binary', 'urlsafe': 'binary', 'b64': 'binary', 'file': 'binary', 'fileurl': 'binary', 'filehex': 'binary',
+                 'int': 'number', 'int32': 'number', 'u8': 'number', 'decimal': 'number', 'double': 'number',
+                 'datetime': 'date', 'date': 'date', 'time': 'date', 'duration': 'date',
+                 'text': 'text', 'text10': 'text', 'pattern': 'text', 'enum': 'text', 'uuid': 'binary', 'bool': 'text',
+                 'anydict': 'text', 'anyxml': 'text'}
+_PREFIXES = {'datetime': ['', '2020-01-02T03:04:05.', '2020-01-02T03:04:05+'], 'date': ['', '2020-01-02'], 'time': ['', '03:04:05.'],
+             'duration': ['', 'P', 'PT', 'PT0.'], 'decimal': ['', '1.', '1e'], 'double': ['', '1.', '1e'], 'int': ['', '-'],
+             'uuid': ['', '12345678-1234-5678-1234-5678'], 'enum': ['', 'red']}
+
+
+def is_binary_kind(kind):
+    return _UNIT_CLASSES.get(kind) == 'binary' and kind != 'uuid'
+
+
+_BINARY_CORE = ['A', '=', 'zz', '0', 'Yé']      # 4n+1 data characters / padding only / not hex / odd hex / non-ASCII
+
+
+def long_literals(rng, kind, every=False):
+    """hostile literals of each length in LENGTHS for the leaf kind.  The binary kinds always get the core units
+    at every length (their decoders have length-dependent error paths) and two more drawn by rng; the others get
+    every length with one unit of their class and one general unit drawn by rng.  All units when [every]."""
+    cls_units = list(_UNITS[_UNIT_CLASSES.get(kind, 'text')])
+    rest = [u for u in cls_units + _UNITS['all'] if u not in _BINARY_CORE]
+    out = []
+    for n in LENGTHS:
+        if every:
+            units = cls_units + [u for u in _UNITS['all'] if u not in cls_units]
+        elif is_binary_kind(kind):
+            units = (_BINARY_CORE if n < 70000 else _BINARY_CORE[:2]) + rng.sample(rest, 2 if n < 70000 else 1)
+        else:
+            units = [rng.choice(cls_units), rng.choice(_UNITS['all'])]
+        for u in units:
+            pre = rng.choice(_PREFIXES.get(kind, [''])) if not is_binary_kind(kind) else ''
+            lit = pre + (u * (n // len(u) + 1))[:max(0, n - len(pre))]
+            if lit not in out:
+                out.append(lit)
+    return out
+
+
 GENERAL_JUNK = ['\x00', 'a\x01b', '\ud800', '\ufffe', '&#1;', None, True, 0, -1, 2 ** 70, 1.5, float('inf'), float('nan'), [], [1], {}, {'a': 1}, ['a', 'b'], [None], b'abc',
                 b'\xff', b'2020-01-02', '%s%s', '5%']
 
@@ -510,7 +564,12 @@ CORPUS = {
              b'{"f": {"o": {"t": {"w": "03:04:05"}}}}', b'{"f": {"o": {"da": ["a", "b"]}}}', b'{"f": {"o": {"m": null}}}',
              b'{"f": {"o": {"nn": null}}}', b'{"f": {"o": {"d": 1.5}}}', b'{"f": {"o": {"d": true}}}',
              b'{"f": {"o": {"d": [1]}}}', b'{"f": {"o": {"d": NaN}}}', b'{"f": {"o": {"u": 5}}}', b'{"f": {"o": {"f": NaN}}}'],
-    'yaml': [b'', b'{', b'\xff', b'[' * 10000, b'[' * 3000 + b']' * 3000, b'a: b: c', b'!!python/object:os.system x',
+    'yaml': [b'', b'{', b'\xff', b'[' * 10000, b'[' * 3000 + b']' * 3000, b'[' * 5000 + b']' * 5000,
+             # a value nested deeper than the interpreter's recursion limit, where a leaf / an array / an object belongs
+             b'g: {i: ' + b'[' * 2000 + b']' * 2000 + b'}', b'g: {i: ' + b'[' * 5000 + b']' * 5000 + b'}',
+             b'g: {s: ' + b'{a: ' * 2000 + b'1' + b'}' * 2000 + b'}', b'f: {o: {inner: ' + b'[' * 5000 + b']' * 5000 + b'}}',
+             b'f: ' + b'[' * 5000 + b']' * 5000, b'bi: ' + b'[' * 5000 + b']' * 5000, b'h: ' + b'{h: ' * 3000 + b'1' + b'}' * 3000,
+             b'k: {d: ' + b'[' * 5000 + b']' * 5000 + b'}', b'a: b: c', b'!!python/object:os.system x',
              b'a: &x [*x]', b'a: &x [*x, *x]\nb: [*x,*x,*x]', b'f: {o: {da: 2020-13-45}}', b'f: {o: {da: 2020-01-02}}',
              b'f: {o: {dt: 2020-01-02 03:04:05}}', b'f: {o: {i: 2020-01-02}}', b'? [a]\n: b', b'a: !!binary x',
              b'f: {o: {ba: !!binary YWJj}}', b'f: {o: {s: !!binary /w==}}', b'"\\x', b'\x00', b'- a\nb', b'%YAML 9.9\n---\na',
@@ -610,7 +669,32 @@ def multipart_bodies(soap_body):
             b'--x\r\nContent-Type: text/xml; charset*=utf-8\'\'utf-8\r\nContent-Location: a\r\n\r\n' + soap_body + b'\r\n--x--',
             b'--x\r\nContent-Type: \xff\r\nContent-Id: <\x00>\r\n\r\n' + soap_body + b'\r\n--x--',
             b'--x\r\n' + p + soap_body + b'\r\n--x\r\nContent-Type: application/octet-stream\r\nContent-Id: <b>\r\n\r\n\x00\xff\r\n--x--',
-            b'--x\r\nContent-Type: multipart/related; boundary=x\r\n\r\n--x\r\n' + p + soap_body + b'\r\n--x--\r\n--x--']
+            b'--x\r\nContent-Type: multipart/related; boundary=x\r\n\r\n--x\r\n' + p + soap_body + b'\r\n--x--\r\n--x--'] \
+        + _attachments(soap_body)
+
+
+def _attachments(soap_body):
+    """a SOAP part followed by one attachment: the envelope has no message element (empty Body, only a Fault,
+    no Body), and the Content-ID / Content-Location of the attachment are hostile (quotes, which used to end up
+    inside an XPath string literal; non-ASCII bytes, which the email package returns as a Header object)"""
+    ns = (S12 if S12.encode() in soap_body else S11).encode()
+    p = b'Content-Type: text/xml; charset=utf-8\r\nContent-Id: <a>\r\n\r\n'
+    envs = [soap_body,
+            b'<e:Envelope xmlns:e="' + ns + b'"><e:Body/></e:Envelope>',
+            b'<e:Envelope xmlns:e="' + ns + b'"><e:Body><e:Fault/></e:Body></e:Envelope>',
+            b'<e:Envelope xmlns:e="' + ns + b'"><e:Body><!-- c --></e:Body></e:Envelope>',
+            b'<e:Envelope xmlns:e="' + ns + b'"/>', b'<a', b'']
+    ids = [b'Content-Id: <b>', b'Content-Id: <b"c>', b"Content-Id: <b'c>", b'Content-Id: <b\'"c>', b'Content-Id: <\xff>',
+           b'Content-Id: <\xc3\xa9>', b'Content-Id: =?utf-8?b?w6k=?=', b'Content-Id: ', b'Content-Id: <>',
+           b'Content-Location: b', b'Content-Location: b"c', b"Content-Location: b'\"c", b'Content-Location: \xff',
+           b'Content-Id: <b>\r\nContent-Location: "', b'Content-Id: ' + b'a' * 20000]
+    out = []
+    for i, env in enumerate(envs):
+        for j, cid in enumerate(ids):
+            if i == 0 or j in (0, 1, 9) or (i + j) % 5 == 0:
+                out.append(b'--x\r\n' + p + env + b'\r\n--x\r\nContent-Type: application/octet-stream\r\n' + cid
+                           + b'\r\n\r\n\x00\xff\r\n--x--')
+    return out
 
 # msgpack-rpc requests to bare methods (MessagePackRpc does not support them: known finding)
 CORPUS_MPRPC_BARE = [b'\x94\x00\x01\xa3bdu\xc0', b'\x94\x00\x01\xa2bi\x91\x05', b'\x94\x00\x01\xa2bi\xc0', b'\x94\x00\x01\xa2bc\x91\x81\xa1a\x01',
